@@ -66,14 +66,19 @@ def _wstep(prefix, op, name, fdatasync, appendmode=0, intrs=1, shorts=1, tier="q
                       "<=%d EINTR and <=%d short writes in the step" % (NAMES[name], intrs, shorts))
 
 
-def _wseq(prefix, name, k, fdatasync, sizes, appendmode=0, intrs=1, shorts=1, tier="quick", timeout=300):
-    defs = {"VP_OP": 0, "VP_NAME": name, "VP_K": k, "VP_INTRS": intrs, "VP_SHORTS": shorts, "VP_APPENDMODE": appendmode,
-            "VP_S0": sizes[0], "VP_S1": sizes[1], "VP_S2": sizes[2]}
-    # is the unbuffered path reachable for these sizes?  (remainder after filling the buffer >= 64 KiB, pos any earlier fill)
+def _wseq(prefix, name, k, fdatasync, sizes, ops, close=1, appendmode=0, intrs=1, shorts=1, fails=1, recover=0, tier="quick", timeout=300):
+    defs = {"VP_OP": 0, "VP_NAME": name, "VP_K": k, "VP_INTRS": intrs, "VP_SHORTS": shorts, "VP_FAILS": fails,
+            "VP_APPENDMODE": appendmode, "VP_CLOSE": close,
+            "VP_S0": sizes[0], "VP_S1": sizes[1], "VP_S2": sizes[2], "VP_O0": ops[0], "VP_O1": ops[1], "VP_O2": ops[2]}
     if any(s >= 65536 for s in sizes[:k]):
         defs["VP_WDIRECT"] = None
-    nm = "%s.wfile-seq-%s-%s-K%d-S%d.%d.%d%s" % (prefix, NAMETAG[name], "fdatasync" if fdatasync else "fsync", k,
-                                                 sizes[0], sizes[1], sizes[2], "-appendfile" if appendmode else "")
+    if 2 in ops[:k]:
+        defs["VP_WSYNC"] = None
+    if recover:
+        defs["VP_WRECOVER"] = None
+    nm = "%s.wfile-seq-%s-%s-K%d-S%d.%d.%d-O%d%d%d-C%d-F%d%s" % (
+        prefix, NAMETAG[name], "fdatasync" if fdatasync else "fsync", k, sizes[0], sizes[1], sizes[2],
+        ops[0], ops[1], ops[2], close, fails, "-appendfile" if appendmode else "")
     uw = dict(WFILE_UNWIND)
     uw.update({"ldb_open.0": intrs + 2, "ldb_write.0": intrs + 2, "ldb_write.1": shorts + 2, "ldb_fsync.0": intrs + 2})
     return Obl(nm, "envunix/wfile.c", real=REAL, include_real=["util/env.c", "util/env_unix_impl.h"], kit=KIT,
@@ -81,9 +86,11 @@ def _wseq(prefix, name, k, fdatasync, sizes, appendmode=0, intrs=1, shorts=1, ti
                unwind=VP_UNWIND, unwindset=uw, sat="cadical", timeout=timeout, tier=tier, functions=WFILE_FUNCS,
                desc="whole run create -> appends -> flush/sync -> close -> destroy: bytes accepted by write(2) are the appended stream "
                     "in order, gap-free, never twice; errors returned; exact resynchronisation after a failed write; sync ordering; "
-                    "descriptor closed exactly once",
-               bounds="file name %r, %d appends of %s bytes, symbolic flush/sync/none after each, symbolic close, destroy; every libc "
-                      "call may fail with any errno; <=%d EINTR and <=%d short writes per run" % (NAMES[name], k, sizes[:k], intrs, shorts))
+                    "descriptor closed exactly once; byte count accepted+discarded+buffered == appended",
+               bounds="file name %r, appends of %s bytes each followed by %s, %s, destroy; at symbolic places <=%d failing libc call "
+                      "(any errno), <=%d EINTR, <=%d short write" % (
+                          NAMES[name], sizes[:k], [("nothing", "flush", "sync")[o] for o in ops[:k]],
+                          "close" if close else "no close", fails, intrs, shorts))
 
 
 VP_UNWIND = 10
@@ -106,12 +113,15 @@ def wfile_obls(prefix):
     for name in (2, 3, 4, 5):
         out.append(_wstep(prefix, 3, name, 1))
     # whole runs with concrete sizes straddling 64 KiB
-    out.append(_wseq(prefix, 0, 2, 1, (65535, 2, 0)))
-    out.append(_wseq(prefix, 1, 2, 1, (1, 65536, 0)))
-    out.append(_wseq(prefix, 0, 2, 0, (100000, 65537, 0)))
-    out.append(_wseq(prefix, 1, 2, 1, (0, 140000, 0), appendmode=1))
-    out.append(_wseq(prefix, 0, 3, 1, (65536, 1, 131072), tier="thorough", timeout=1200))
-    out.append(_wseq(prefix, 1, 3, 1, (40000, 40000, 40000), tier="thorough", timeout=1200))
+    # whole runs, everything succeeds (concrete, cheap): the byte count closes
+    out.append(_wseq(prefix, 1, 3, 1, (65535, 2, 140000), (0, 2, 1), intrs=0, shorts=0, fails=0))
+    out.append(_wseq(prefix, 0, 3, 0, (100000, 65536, 1), (1, 0, 2), intrs=0, shorts=0, fails=0, appendmode=1))
+    # whole runs with one failing call, one short write, one EINTR at symbolic places
+    T = {"tier": "thorough", "timeout": 2400}
+    out.append(_wseq(prefix, 0, 2, 1, (65535, 2, 0), (0, 1, 0), **T))
+    out.append(_wseq(prefix, 1, 2, 1, (1, 65536, 0), (0, 2, 0), **T))
+    out.append(_wseq(prefix, 0, 2, 0, (100000, 65537, 0), (2, 0, 0), close=0, **T))
+    out.append(_wseq(prefix, 1, 2, 1, (70000, 30, 0), (1, 1, 0), appendmode=1, recover=1, **T))
     return out
 
 
